@@ -4,6 +4,8 @@ C11 — input grammar: accept exactly the documented language, report every viol
 import GontainerModel.Lemmas.C11Aux
 import GontainerModel.Lemmas.Grammar
 import GontainerModel.Model.Validate
+import GontainerModel.Model.Decode
+import GontainerModel.Generated.Wiring
 import GontainerModel.Props.Pins
 namespace GM.C11
 open GM GM.Validate GM.Input
@@ -124,6 +126,131 @@ theorem getters_unique (i : Input) (h : validateServices i = []) :
     exact (pfx_nil _ _).mp h
   obtain ⟨hnd, _, hattrs⟩ := fold_unique _ _ hfold
   exact ⟨hnd, hattrs⟩
+
+/-! ### tag / call / scope shapes (the custom YAML unmarshalers) -/
+
+/-- **tag shapes**: a tag node is stored iff it is a string (priority 0) or a mapping whose `name` is a
+string and whose `priority`, if present, is an int; what is stored is exactly that name and priority -/
+theorem tag_shapes (n : Decode.Node) (t : Tag) :
+    Decode.decodeTag n = .ok t ↔
+      (n = .v (.str t.name) ∧ t.priority = 0) ∨
+      (∃ kv, n = .dict kv ∧ kv.lookup "name" = some (.v (.str t.name)) ∧
+        ((kv.lookup "priority" = none ∧ t.priority = 0) ∨ kv.lookup "priority" = some (.v (.int t.priority)))) := by
+  obtain ⟨tn, tp⟩ := t
+  constructor
+  · intro h
+    cases n with
+    | v x => cases x <;> simp_all [Decode.decodeTag]
+    | list xs => simp [Decode.decodeTag] at h
+    | dict kv =>
+      right
+      refine ⟨kv, rfl, ?_⟩
+      simp only [Decode.decodeTag] at h
+      cases hn : kv.lookup "name" with
+      | none => simp [hn] at h
+      | some nn =>
+        cases nn with
+        | v x =>
+          cases x <;> simp [hn] at h
+          rename_i s
+          cases hp : kv.lookup "priority" with
+          | none => simp [hp] at h; simp [h]
+          | some pp =>
+            cases pp with
+            | v y => cases y <;> simp [hp] at h; simp [h]
+            | list _ => simp [hp] at h
+            | dict _ => simp [hp] at h
+        | list _ => simp [hn] at h
+        | dict _ => simp [hn] at h
+  · rintro (⟨rfl, hp⟩ | ⟨kv, rfl, hn, hp⟩)
+    · simp only at hp; subst hp; simp [Decode.decodeTag]
+    · simp only at hn hp
+      rcases hp with ⟨hp, h0⟩ | hp
+      · subst h0; simp [Decode.decodeTag, hn, hp]
+      · simp [Decode.decodeTag, hn, hp]
+
+/-- **call shapes**: a call node is stored iff it is a sequence `[method]`, `[method, args]` or
+`[method, args, immutable]` with a string, a sequence and a bool; the stored call is exactly that -/
+theorem call_shapes (n : Decode.Node) (c : Call) :
+    Decode.decodeCall n = .ok c ↔
+      n = .list [.v (.str c.method)] ∧ c.args = [] ∧ c.immutable = false ∨
+      n = .list [.v (.str c.method), .list c.args] ∧ c.immutable = false ∨
+      n = .list [.v (.str c.method), .list c.args, .v (.bool c.immutable)] := by
+  obtain ⟨m, as, im⟩ := c
+  constructor
+  · intro h
+    cases n with
+    | v x => simp [Decode.decodeCall] at h
+    | dict kv => simp [Decode.decodeCall] at h
+    | list items =>
+      simp only [Decode.decodeCall] at h
+      split at h
+      · simp at h
+      · rename_i hlen
+        match items, hlen with
+        | [], hl => simp at hl
+        | [a], _ =>
+          cases a with
+          | v x => cases x <;> simp at h; simp [h]
+          | list _ => simp at h
+          | dict _ => simp at h
+        | [a, b], _ =>
+          cases a with
+          | v x =>
+            cases x <;> simp at h
+            cases b with
+            | v y => simp at h
+            | list ys => simp at h; simp [h]
+            | dict _ => simp at h
+          | list _ => simp at h
+          | dict _ => simp at h
+        | [a, b, d], _ =>
+          cases a with
+          | v x =>
+            cases x <;> simp at h
+            cases b with
+            | v y => simp at h
+            | list ys =>
+              cases d with
+              | v z => cases z <;> simp at h; simp [h]
+              | list _ => simp at h
+              | dict _ => simp at h
+            | dict _ => simp at h
+          | list _ => simp at h
+          | dict _ => simp at h
+        | _ :: _ :: _ :: _ :: _, hl => simp at hl
+  · rintro (⟨rfl, ha, hi⟩ | ⟨rfl, hi⟩ | rfl)
+    · simp only at ha hi; subst ha; subst hi; simp [Decode.decodeCall]
+    · simp only at hi; subst hi; simp [Decode.decodeCall]
+    · simp [Decode.decodeCall]
+
+/-- **scope keywords**: exactly `shared`, `contextual`, `non_shared` are stored, as the scope they name;
+the keyword table is the one of input_scope.go (regenerated) -/
+theorem scope_keywords (s : String) (sc : Scope) :
+    Decode.decodeScope (.v (.str s)) = .ok sc ↔
+      (s = "shared" ∧ sc = .shared) ∨ (s = "contextual" ∧ sc = .contextual) ∨ (s = "non_shared" ∧ sc = .nonShared) := by
+  simp only [Decode.decodeScope, Decode.scalarText, Decode.scopeKeywords, List.lookup]
+  by_cases h1 : s = "shared"
+  · subst h1; cases sc <;> simp
+  by_cases h2 : s = "contextual"
+  · subst h2; cases sc <;> simp
+  by_cases h3 : s = "non_shared"
+  · subst h3; cases sc <;> simp
+  have e1 : (s == "shared") = false := beq_eq_false_iff_ne.mpr h1
+  have e2 : (s == "contextual") = false := beq_eq_false_iff_ne.mpr h2
+  have e3 : (s == "non_shared") = false := beq_eq_false_iff_ne.mpr h3
+  simp [h1, h2, h3, e1, e2, e3]
+
+theorem pin_scope_keywords :
+    Generated.scopeKeywordTable = [("ScopeShared", "shared"), ("ScopeContextual", "contextual"), ("ScopeNonShared", "non_shared")] ∧
+    Decode.scopeKeywords.map (·.1) = Generated.scopeKeywordTable.map (·.2) := by decide
+
+/-- the fully written forms are read back as written -/
+theorem shapes_roundtrip (t : Tag) (c : Call) :
+    Decode.decodeTag (Decode.encodeTag t) = .ok t ∧ Decode.decodeCall (Decode.encodeCall c) = .ok c := by
+  constructor
+  · simp [Decode.decodeTag, Decode.encodeTag, List.lookup]
+  · simp [Decode.decodeCall, Decode.encodeCall]
 
 -- the documented examples are accepted / the documented non-examples rejected
 example : Grammar.yamlToken ['m','y','.','p','a','r','a','m','-','1','_','x'] = true := by decide
